@@ -41,3 +41,11 @@ package config
 //@   requires a != nil
 //@   ensures result == (len(a.ReceiveKeyIDs) > 0)
 //@   modifies nothing
+
+// ---- C28: panic-freedom sweep (zero-annotation safety obligations: index, slice
+// bounds, division, type assertion, make size) for functions that consume request
+// bytes or validated configuration. Preconditions are admitted only where a
+// validation rule enforces them.
+
+//@ contract config.GetKeyFields props C28
+//@   modifies nothing
